@@ -2275,3 +2275,57 @@ Proof.
     { cbn [clean_entry c_inverse]. rewrite plook_remove_keys_pdict, Mk. reflexivity. }
     rewrite <- E in Hocc |- *. apply plook_pos_In. assumption.
 Qed.
+
+(** ** simple facts about the declarative counts (used by the frequency
+    properties: a ratio [occ / class_count] is at most one) *)
+
+Lemma sumN_le_pointwise {A : Type} (f g : A -> N) l :
+  (forall x, In x l -> f x <= g x) -> sumN (map f l) <= sumN (map g l).
+Proof.
+  induction l as [|x l IH]; cbn; [lia|]. intros H.
+  assert (f x <= g x) by (apply H; auto).
+  assert (sumN (map f l) <= sumN (map g l)) by (apply IH; intros y Hy; apply H; auto). lia.
+Qed.
+
+Theorem occ_le_class_count dir tau I G c p k card :
+  occ dir tau I G c p k card <= class_count I c.
+Proof.
+  unfold occ, class_count. apply sumN_le_pointwise. intros ie _.
+  destruct (card_ok tau p card _); lia.
+Qed.
+
+(** an exact cardinality is a special case of "+" (ordinary properties) *)
+Theorem occ_exact_le_plus dir tau I G c p k n :
+  str_eqb p tau = false ->
+  occ dir tau I G c p k (CKn n) <= occ dir tau I G c p k CKplus.
+Proof.
+  intros Hp. unfold occ. apply sumN_le_pointwise. intros ie _.
+  unfold card_ok. rewrite Hp. destruct (0 <? cnt dir tau I G (fst ie) p k); cbn [andb]; [|lia].
+  destruct (N.eqb n _); lia.
+Qed.
+
+(** for the instantiation property only cardinality 1 exists *)
+Theorem occ_tau_only_one dir tau I G c k card :
+  card <> CKn 1 -> occ dir tau I G c tau k card = 0.
+Proof.
+  intros Hc. unfold occ.
+  assert (E : forall l : insts, sumN (map (fun ie : str * list str =>
+              if card_ok tau tau card (cnt dir tau I G (fst ie) tau k) then count_in c (snd ie) else 0) l) = 0).
+  { induction l as [|ie l IH]; cbn [map sumN]; [reflexivity|]. rewrite IH.
+    unfold card_ok. rewrite str_eqb_refl.
+    assert (F : ckey_eqb card (CKn 1) = false) by (apply ckey_eqb_neq; assumption).
+    rewrite F, andb_false_r. reflexivity. }
+  apply E.
+Qed.
+
+(** cardinality 0 never occurs *)
+Theorem occ_zero_card dir tau I G c p k : occ dir tau I G c p k (CKn 0) = 0.
+Proof.
+  unfold occ.
+  assert (E : forall l : insts, sumN (map (fun ie : str * list str =>
+              if card_ok tau p (CKn 0) (cnt dir tau I G (fst ie) p k) then count_in c (snd ie) else 0) l) = 0).
+  { induction l as [|ie l IH]; cbn [map sumN]; [reflexivity|]. rewrite IH.
+    unfold card_ok. destruct (cnt dir tau I G (fst ie) p k) as [|q] eqn:En; [reflexivity|].
+    cbn [N.ltb N.compare andb]. destruct (str_eqb p tau); reflexivity. }
+  apply E.
+Qed.
